@@ -1,4 +1,5 @@
 import PvModel.Props.C04
+import PvModel.Props.C04Rel
 #print axioms Pv.C04_disj_comm
 #print axioms Pv.C04_disj_comm_mem
 #print axioms Pv.C04_disj_perm_mem
@@ -8,3 +9,7 @@ import PvModel.Props.C04
 #print axioms Pv.C04_engine_sound
 #print axioms Pv.C04_program_comm
 #print axioms Pv.C04_program_congr
+#print axioms Pv.C04_rel_program_exact
+#print axioms Pv.C04_rel_equiv
+#print axioms Pv.C04_rel_conj_comm
+#print axioms Pv.C04_rel_alt_comm
